@@ -37,6 +37,7 @@ type op struct {
 	// complete: which parts to list and how
 	Select []int  `json:"select,omitempty"`  // part numbers in the order listed
 	ETagOf string `json:"etag_of,omitempty"` // current, stale, foreign, quoted, missing
+	MpSize string `json:"mp_size,omitempty"` // complete: x-amz-mp-object-size is sent and is right, zero, wrong (one more) or neg
 	// partcopy
 	Src   int    `json:"src,omitempty"` // source object slot
 	Range string `json:"range,omitempty"`
@@ -413,7 +414,28 @@ func execA(c caseA) (st stats, err error) {
 				}
 				sel = append(sel, s3c.Part{PartNumber: n, ETag: et})
 			}
-			r, err := cl.Call("POST", path(u.Key), s3c.Q("uploadId", u.ID), nil, s3c.CompleteXML(sel))
+			var chdr []s3c.KV
+			if o.MpSize != "" {
+				// the client states the size the assembled object must have
+				var total int64
+				for _, mp := range chosen {
+					total += int64(mp.Size)
+				}
+				v := fmt.Sprint(total)
+				switch o.MpSize {
+				case "zero":
+					v = "0"
+				case "wrong":
+					v = fmt.Sprint(total + 1)
+				case "neg":
+					v = "-1"
+				}
+				if v != fmt.Sprint(total) {
+					valid = false
+				}
+				chdr = []s3c.KV{{K: "x-amz-mp-object-size", V: v}}
+			}
+			r, err := cl.Call("POST", path(u.Key), s3c.Q("uploadId", u.ID), chdr, s3c.CompleteXML(sel))
 			if err != nil {
 				return st, fmt.Errorf("SETUP: transport: %v", err)
 			}
@@ -590,6 +612,7 @@ func opGen() *rapid.Generator[op] {
 				rapid.SampledFrom([][]int{{1}, {1, 2}, {1, 2, 3}, {2}, {1, 3}, {2, 1}, {1, 1}, {2, 3}, {1, 2, 3, 4}, {3}, {10000}, {1, 10000}, {}}),
 				rapid.SliceOfN(rapid.IntRange(1, 5), 0, 4)).Draw(t, "select")
 			o.ETagOf = rapid.SampledFrom([]string{"current", "current", "current", "stale", "foreign", "quoted", "missing"}).Draw(t, "etag_of")
+			o.MpSize = rapid.SampledFrom([]string{"", "", "", "right", "zero", "wrong", "neg"}).Draw(t, "mp_size")
 		case "listuploads":
 			o.Max = rapid.SampledFrom([]string{"", "1", "1", "2", "3", "1000"}).Draw(t, "max_uploads")
 		case "listparts":
@@ -663,7 +686,8 @@ func programGen() *rapid.Generator[[]op] {
 			if rapid.IntRange(0, 2).Draw(t, "list_parts") == 0 {
 				sc = append(sc, op{Kind: "listparts", Max: rapid.SampledFrom([]string{"1", "2", "2", "3"}).Draw(t, "lp_max"), Marker: rapid.SampledFrom([]string{"", "", "1", "2", "10"}).Draw(t, "lp_marker")})
 			}
-			end := op{Kind: "complete", Select: sel, ETagOf: rapid.SampledFrom([]string{"current", "current", "current", "current", "stale", "quoted", "foreign"}).Draw(t, "etag_of")}
+			end := op{Kind: "complete", Select: sel, ETagOf: rapid.SampledFrom([]string{"current", "current", "current", "current", "stale", "quoted", "foreign"}).Draw(t, "etag_of"),
+				MpSize: rapid.SampledFrom([]string{"", "", "", "", "right", "right", "zero", "wrong", "neg"}).Draw(t, "mp_size")}
 			if rapid.IntRange(0, 5).Draw(t, "abort_instead") == 0 {
 				end = op{Kind: "abort"}
 			}
